@@ -2,4 +2,4 @@ From Coq Require Import Extraction ExtrOcamlBasic NArith ZArith List.
 From LTV.C04 Require Import Model.
 Set Extraction Optimize.
 Extraction Language OCaml.
-Extraction "extracted/c04_model.ml" init accept run run_ix xinit xaccept xrun xrun_ix yinit yaccept yrun yrun_ix delegatable calculate_pipe_size params_ok valid_block not_stalled holds Z.of_N.
+Extraction "extracted/c04_model.ml" init accept run run_ix xinit xaccept xrun xrun_ix yinit yaccept yrun yrun_ix delegatable params_ok valid_block not_stalled holds Z.of_N.
